@@ -778,9 +778,20 @@ impl BuiltInFunction {
                 })?;
 
                 let result: Primitive = match this {
-                    Primitive::Int(i32) => Primitive::BigInt(i32.pow(power_non_fp) as i128),
-                    Primitive::BigInt(i128) => Primitive::BigInt(i128.pow(power_non_fp)),
-                    Primitive::Byte(u8) => Primitive::BigInt(u8.pow(power_non_fp) as i128),
+                    Primitive::Int(i32) => Primitive::BigInt(
+                        i128::from(*i32)
+                            .checked_pow(power_non_fp)
+                            .with_context(|| format!("`{i32}` to the power of {power} overflows"))?,
+                    ),
+                    Primitive::BigInt(i128) => Primitive::BigInt(
+                        i128.checked_pow(power_non_fp)
+                            .with_context(|| format!("`{i128}` to the power of {power} overflows"))?,
+                    ),
+                    Primitive::Byte(u8) => Primitive::BigInt(
+                        i128::from(*u8)
+                            .checked_pow(power_non_fp)
+                            .with_context(|| format!("`{u8}` to the power of {power} overflows"))?,
+                    ),
                     bad => unreachable!("{bad}"),
                 };
 
